@@ -313,7 +313,7 @@ def _contains(node, pred):
     return any(pred(x) for x in H.walk(node))
 
 
-@RS.rule('C17.R4', 'K-TABLE', 'Source::is_alias_for: Alias => name equality OR recursion on the original; every other origin => false')
+@RS.rule('C17.R4', 'K-TABLE', 'Source::is_alias_for: Alias => name equality OR recursion on the original; CommandSubst => recursion on the original (its body is text of the enclosing code, parsed later); every other origin => false')
 def r4(cx):
     F = cx.F
     h = F.hir_of(IS_ALIAS_FOR)
@@ -324,6 +324,7 @@ def r4(cx):
     pname = params[1]
     # decompose into (alias branch, other branches)
     alias_branch = None
+    subst_branch = None
     others = []
     body = H.peel(h['body'])
     while body.get('k') == 'block' and not body.get('stmts') and body.get('e'):
@@ -339,6 +340,8 @@ def r4(cx):
         for arm in body['arms']:
             if is_alias_pat(arm['pat']) and not arm.get('guard') and alias_branch is None:
                 alias_branch = arm['body']
+            elif H.pat_variants(arm['pat']) == {'yash_env::source::Source::CommandSubst'} and not arm.get('guard'):
+                subst_branch = arm['body']
             else:
                 others.append(arm['body'])
     cx.require(alias_branch is not None, 'is_alias_for is not a single test for Source::Alias (if let / match)')
@@ -385,6 +388,20 @@ def r4(cx):
                          loc=loc)
         if _contains(alias_branch, lambda y: y.get('k') == 'unary' and y.get('op') == '!'):
             cx.violation(IS_ALIAS_FOR, 'alias-arm:negation', 'the Alias arm negates part of the test', loc=loc)
+    # fix (hunt C17-1): the body of a command substitution is parsed when it is executed, with Source::CommandSubst{original}; it is
+    # still text of the enclosing code, so the chain continues through its original (`alias pwd='echo $(pwd)'` recursed for ever)
+    sub_rec = False
+    if subst_branch is not None:
+        top = H.peel(subst_branch)
+        while top.get('k') == 'block' and not top.get('stmts') and top.get('e'):
+            top = H.peel(top['e'])
+        sub_rec = is_rec(top)
+    cx.site('is_alias_for: CommandSubst arm recurses on its original: %s' % sub_rec)
+    if not sub_rec:
+        cx.violation(IS_ALIAS_FOR, 'command-subst-arm:no-recursion', 'a command substitution inside an alias replacement loses the chain of '
+                     'substituted names: its body is parsed later with Source::CommandSubst{original}, for which is_alias_for answers false, so '
+                     '`alias pwd=\'echo "dir: $(pwd)"\'; pwd` substitutes pwd again at every level until the stack overflows (the manual: "an '
+                     'alias is not substituted in the result of its own expansion, preventing infinite loops")', loc=loc)
     for o in others:
         v = H.lit_value(o) if o is not None else None
         if o is not None:
